@@ -38,7 +38,12 @@ RULE = (
     "object, callable, list display, missing field; each exposes ANY public attribute name as a logged callable) in each "
     "parameter position: a named method of a value invoked by helper or library code is accepted only for the documented "
     "pairs lower()->.lower, upper()->.upper (also reached through field_* with nocase) or inside a field-type constructor / "
-    "the regex engine; anything else (gettypename, startswith ...) is a violation whatever the caller (applies to every case)."
+    "the regex engine; anything else (gettypename, startswith ...) is a violation whatever the caller (applies to every case).  "
+    "Family 'typed-matcher': Type.<type>.<attr> OP x (no Call node) for 8 matcher-capable field types x 11 attribute names x 13 "
+    "forms on a real record holding canaries in string / wstring / uri / varint / filesize / unix_file_mode / dynamic / "
+    "stringlist slots and in nested record / record[] fields: no named canary method may be invoked, whatever is returned.  "
+    "Family 'call-verdict-cache': a legitimate call spelling evaluated first (same expression, or an earlier record matched by "
+    "the SAME Selector object) followed by the shadowing generator-variable shape."
 )
 ASSUMPTIONS = [
     "a canary method called from the code of a documented helper function (lower/upper/field_*) or from a whitelisted "
@@ -247,6 +252,29 @@ HELPER_CALLS = [
 HELPER_ARG_CONTEXTS = ["{H}", "({H}) == 1", "any(({H}) for q in [1])"]
 DOCUMENTED_HELPER_METHODS = {("lower", "lower"), ("upper", "upper")}
 
+# ---- typed matcher: Type.<type>.<attr> reads attributes of field values, it must never call them -----------------
+# No Call node is spelled.  The record holds canaries (every public attribute name is a logged callable) in string / wstring /
+# uri / varint / filesize / unix_file_mode / dynamic / stringlist slots and inside nested record / record[] fields.
+TYPED_TYPES = ["string", "wstring", "uri", "varint", "filesize", "unix_file_mode", "dynamic", "stringlist"]
+TYPED_ATTRS = ["poke", "detonate", "upper", "isdigit", "bit_length", "fn", "strip", "filename", "real", "poke.again", "gettypename"]
+TYPED_FORMS = ['Type.{T}.{A} == "x"', '"x" in Type.{T}.{A}', "Type.{T}.{A} == True", "Type.{T}.{A} != 1", "Type.{T}.{A} < 1", "Type.{T}.{A} >= 1",
+               "Type.{T}.{A} in [1, 2]", "Type.{T}.{A} not in [1]", "not Type.{T}.{A} == 1", 'Type.{T}.{A} == "x" or Type.{T}.{A} == 1',
+               "any(Type.{T}.{A} == q for q in [1, 2])", "Type.{T}.{A}", "[Type.{T}.{A}, 1] == 1"]
+TYPED_RECORDS = ("real-typed", "real-canary", "standin")
+# a legitimate call spelling first (earlier in the expression, or on an earlier record with the same Selector object), then
+# the hostile shape that re-uses the spelling through a generator variable: a cache of call verdicts must not let it through
+VERDICT_CACHE = [
+    'string("k") == "k" and any(string("k") for string in [r.s.poke])', 'string("k") == "k" and any(string("k") for string in [r.o.fn])',
+    '[net.ipaddress("1.1.1.1"), any(net.ipaddress("1.1.1.1") for net in [r.o])] == 1', 'str(1) == "1" and any(str(1) for str in [r.o.fn])',
+    'varint(1) == 1 and any(varint(1) for varint in [r.s.detonate])', 'lower("A") == "a" and any(lower("A") for lower in [r.s.detonate])',
+    'net.ipaddress("1.1.1.1") == r.zz or any(net.ipaddress("1.1.1.1") == 1 for net in [r.o])',
+]
+VERDICT_CACHE_PRIMED = [  # real-plain is matched first with the same Selector object: it stops after the legitimate call
+    'string("plain") == r.o or any(string("plain") for string in [r.s.detonate])', 'string("plain") == r.o or any(string("plain") for string in [r.o.fn])',
+    'str(r.o) == "plain" or any(str(r.o) for str in [r.o.fn])', 'uri("plain") == r.o or any(uri("plain") for uri in [r.s.poke])',
+    'net.ipaddress("1.1.1.1") == 1 or r.o == "plain" or any(net.ipaddress("1.1.1.1") for net in [r.o])',
+]
+
 # ---- allowed shapes (negative controls) ---------------------------------------------------------------
 CONTROLS = [
     "lower(r.s)", "upper(r.s)", "str(r.n)", "repr(r.s)", 'net.ipnetwork("10.0.0.0/8")', 'net.ipaddress("10.1.2.3") in net.ipnetwork("10.0.0.0/8")',
@@ -289,7 +317,8 @@ def _records(ctx):
 def get_record(ctx, kind):
     recs = _records(ctx)
     if kind not in recs:
-        rec = {"real-canary": cn.real_canary_record, "standin": cn.standin_record, "real-plain": cn.real_plain_record}[kind]()
+        rec = {"real-canary": cn.real_canary_record, "standin": cn.standin_record, "real-plain": cn.real_plain_record,
+               "real-typed": cn.real_typed_record}[kind]()
         if kind != "standin":
             observe.assert_typed(rec, "constructed")
         recs[kind] = rec
@@ -303,7 +332,7 @@ def value_ids(ctx, kind):
     ent = cache.get(kind)
     if ent is None or ent[0] is not rec:
         ids = set()
-        for k in ("s", "t", "n", "l", "k", "o"):
+        for k in ("s", "t", "n", "l", "k", "o", "w", "u", "fs", "mode", "d2", "sl"):
             v = getattr(rec, k, None)
             if v is None:
                 continue
@@ -407,6 +436,21 @@ def generate(ctx):
             if ctx.mine(idx):
                 yield {"k": "direct", "expr": a, "rec": rk, "shape": a, "scat": "control-direct", "ctx": "bare#0", "ccat": "bare"}
             idx += 1
+    for t in TYPED_TYPES:
+        for a in TYPED_ATTRS:
+            for fi, f in enumerate(TYPED_FORMS):
+                for rk in TYPED_RECORDS:
+                    if ctx.mine(idx):
+                        yield {"k": "typedmatch", "expr": f.replace("{T}", t).replace("{A}", a), "rec": rk, "shape": "Type.%s.%s" % (t, a),
+                               "scat": "typed-matcher-attribute", "ctx": "typedform#%d" % fi, "ccat": "typed-matcher", "ttype": t, "attr": a}
+                    idx += 1
+    for e in VERDICT_CACHE + VERDICT_CACHE_PRIMED:
+        for ci, c in enumerate(ARG_CONTEXTS[:4]):
+            for rk in ARG_RECORDS:
+                if ctx.mine(idx):
+                    yield {"k": "hostile", "expr": c.replace("{H}", e), "ev": True, "rec": rk, "shape": "verdict-cache", "scat": "genvar-shadow-type",
+                           "ctx": "argctx#%d" % ci, "ccat": "call-verdict-cache", "prime": "real-plain" if e in VERDICT_CACHE_PRIMED else None}
+                idx += 1
     for h in HELPER_CALLS:
         for c in CANARY_ARGS:
             for ci, hc in enumerate(HELPER_ARG_CONTEXTS):
@@ -624,6 +668,13 @@ def run_case(ctx, case):
     # tripwires are armed after construction (which legitimately compiles the expression text to an AST)
     with probes.AuditLog({"open", "exec", "compile", "import", "os.system", "subprocess.Popen"}, filter=tripfilter) as trip:
         if sel is not None:
+            if case.get("prime"):
+                # the same Selector object sees another record first (it stops after the legitimate call there)
+                try:
+                    sel.match(get_record(ctx, case["prime"]))
+                    ctx.event("primed_first_match:returned")
+                except Exception:  # noqa: BLE001
+                    ctx.event("primed_first_match:raised")
             cw.drain()
             cn.arm()
             try:
@@ -718,6 +769,10 @@ def run_case(ctx, case):
         else:
             ctx.event("forbidden_in_unevaluated_position")
             ctx.event("unevaluated:" + ("raised" if raised is not None else "returned"))
+    elif case["k"] == "typedmatch":
+        ctx.event("typed_matcher_cases")
+        ctx.event("typed_matcher:" + ("raised" if raised is not None else "returned"))
+        ctx.cell("typed-matcher", case["ttype"], case["attr"])
     elif case["k"] == "helperarg":
         ctx.event("helper_argument_cases")
         ctx.event("helper_argument:" + ("raised" if raised is not None else "returned"))
@@ -771,6 +826,7 @@ def finish(ctx):
     ctx.require(ev["forbidden_in_evaluated_position"] > 0, "no forbidden shape in evaluated position was run")
     ctx.require(ev["strict_cases"] > 0 and ev["canary:special:interpreter"] > 0,
                 "the refused-call-arguments family did not run, or no special method of a canary was ever observed")
+    ctx.require(ev["typed_matcher_cases"] > 0 and ev["callwatch:interpreter:interpreter-internal"] > 0, "the typed-matcher family did not run")
     ctx.require(ev["helper_argument_cases"] > 0 and ev["canary_named_call_documented:lower->lower"] > 0,
                 "the helper-with-canary-argument family did not run, or the documented lower()->.lower call was never observed")
     ctx.require(ev["control_accepted"] > 0, "no allowed control expression was accepted (everything refused?)")
